@@ -6,6 +6,7 @@ import (
 	"go/constant"
 	"go/token"
 	"go/types"
+	"regexp"
 	"strconv"
 	"strings"
 )
@@ -261,9 +262,12 @@ func (g *FuncGen) ev1(e ast.Expr, st *State) Val {
 	return Val{}
 }
 
+// freshNumRe: the counter suffix of generated constants; obligation names must not depend on it
+var freshNumRe = regexp.MustCompile(`_[0-9]+\b`)
+
 func (g *FuncGen) derefStruct(st *State, p Val, pos token.Pos) Val {
 	n, s, _ := structOf(p.Ty)
-	g.oblige(st, "nil", "*"+p.T, nil, fmt.Sprintf("(not (= %s 0))", p.T), pos, "")
+	g.oblige(st, "nil", "*"+freshNumRe.ReplaceAllString(p.T, ""), nil, fmt.Sprintf("(not (= %s 0))", p.T), pos, "")
 	var sb strings.Builder
 	sb.WriteString("(mk_S_" + namedKey(n))
 	for i := 0; i < s.NumFields(); i++ {
